@@ -37,5 +37,9 @@ Definition documented : facts := {|
   f_cache_sites := [("validate", ""); ("check_with_bulk_schema", "turing"); ("check_with_schema", ""); ("validate_logical", "logical")];
   f_cache_typed_scalars := true;
   f_cache_per_class := true;
-  f_handler_add_copies := true
+  f_handler_add_copies := true;
+  (* documented: every write goes into the validator's own copy (depth 0), or into a nested container that was
+     re-bound to a copy first *)
+  f_write_sites := [];
+  f_entry_copies := true
 |}.
